@@ -170,3 +170,102 @@ def conf_units(tier):
 def c06(tier):
     us = conf_units(tier)
     return us + [twin(us[0]), twin(us[-1])]
+
+
+def stall_len(integ, phys, K, fs, lead_empty=False):
+    """length of the concrete stream a stall/cut unit works on (computed natively at planning time)"""
+    import importlib
+    fl = importlib.import_module("vpkg.harness.flow")
+    return len(fl.make_stream(integ, phys, K, fs, lead_empty)[0])
+
+
+@prop("C11", functions=["pyjelly/serialize/flows.py:BoundedFrameFlow.__init__", "pyjelly/serialize/flows.py:BoundedFrameFlow.frame_from_bounds", "pyjelly/serialize/flows.py:FrameFlow.to_stream_frame",
+                        "pyjelly/serialize/streams.py:TripleStream.triple", "pyjelly/serialize/streams.py:QuadStream.quad", "pyjelly/integrations/generic/serialize.py:flat_stream_to_frames",
+                        "pyjelly/integrations/rdflib/serialize.py:flat_stream_to_frames", "pyjelly/parse/ioutils.py:get_options_and_frames", "pyjelly/parse/ioutils.py:frame_iterator",
+                        "pyjelly/integrations/generic/parse.py:parse_jelly_flat", "pyjelly/integrations/rdflib/parse.py:parse_jelly_flat"],
+      bounds={"quick": {"write": "frame_size symbolic (all integers >= 1), 4 statements, TRIPLES and QUADS, both integrations; flow lemma: pending rows 0..6, frame_size any integer incl. 0/None",
+                        "parse": "stall offset symbolic over every byte offset of a 3-statement stream (frame_size 1 and 2), read chunk size symbolic: 1 or unlimited (quick), 1..3 or unlimited (thorough)"},
+              "thorough": {"write": "5 statements", "parse": "4-statement streams, leading empty frames"}},
+      outside="OS-level buffering; streams longer than the bound (frame-at-a-time argument)",
+      explanation="L-FLOW + H-PULL: producer/consumer steps interleaved one next() at a time with pull-time observation of pending rows; H-STALL: non-seekable source that blocks forever after a symbolic byte offset")
+def c11(tier):
+    us = []
+    for cls in ("bounded", "triples", "quads"):
+        us.append(U(f"flow:{cls}", "flow", "flow_lemma", dict(cls=cls, kmax=6), timeout=120))
+    K = 4 if tier == "quick" else 5
+    for integ in ("generic", "rdflib"):
+        for phys in (1, 2):
+            us.append(U(f"pull:{integ}:p{phys}:K{K}", "flow", "pull", dict(integ=integ, phys=phys, K=K), timeout=300))
+    Ks = 3 if tier == "quick" else 4
+    for integ in ("generic", "rdflib"):
+        for phys in (1, 2):
+            for fs in (1, 2):
+                for le in ([False] if tier == "quick" else [False, True]):
+                    if tier == "quick" and integ == "rdflib" and fs == 2:
+                        continue
+                    n = stall_len(integ, phys, Ks, fs, le)
+                    parts = 4
+                    for q in range(parts):
+                        lo, hi = q * (n + 1) // parts, (q + 1) * (n + 1) // parts - 1
+                        us.append(U(f"stall:{integ}:p{phys}:fs{fs}:le{int(le)}:a{lo}-{hi}", "flow", "stall",
+                                    dict(integ=integ, phys=phys, K=Ks, fs=fs, lead_empty=le, len=n, lo=lo, hi=hi, maxchunk=1 if tier == "quick" else 3), timeout=600))
+    return us + [twin(us[0]), twin(us[3]), twin(us[-1])]
+
+
+IO_FUNCS = ["pyjelly/parse/ioutils.py:get_options_and_frames", "pyjelly/parse/ioutils.py:frame_iterator", "pyjelly/parse/ioutils.py:delimited_jelly_hint",
+            "pyjelly/integrations/generic/parse.py:parse_jelly_flat", "pyjelly/integrations/rdflib/parse.py:parse_jelly_flat", "pyjelly/parse/decode.py:Decoder.iter_rows"]
+
+
+def io_len(params):
+    import importlib
+    m = importlib.import_module("vpkg.harness.iosched")
+    m.P = dict(params)
+    return len(m.stream_bytes())
+
+
+@prop("C09", functions=IO_FUNCS,
+      bounds={"quick": {"schedule": "sched: first three raw reads limited to symbolic s1,s2,s3 each in 1..4 or unlimited; sched1: first read limited to any s1 >= 1; schedall: every read limited to one symbolic s >= 1 (all integers)",
+                        "streams": "3-statement delimited streams (frame_size 1, 2) and non-delimited, TRIPLES/QUADS, both integrations", "seekable": "BytesIO, buffered file, gzip, BufferedReader(FileIO) with symbolic buffer size"},
+              "thorough": {"streams": "4 statements, leading empty frames"}},
+      outside="sources violating the RawIOBase contract; schedules whose 5th and later reads are short are covered only by the uniform-limit units",
+      explanation="H-IO-SCHED: a non-seekable RawIOBase double whose reads are limited by symbolic integers; result must equal the parse of the same bytes from memory")
+def c09(tier):
+    us = []
+    K = 3 if tier == "quick" else 4
+    for integ in ("generic", "rdflib"):
+        for phys in (1, 2):
+            for fs, delim in ((1, True), (2, True), (250, False)):
+                if tier == "quick" and integ == "rdflib" and fs == 2:
+                    continue
+                base = dict(integ=integ, phys=phys, K=K, fs=fs, delimited=delim)
+                base["len"] = io_len(base)
+                us.append(U(f"sched:{integ}:p{phys}:fs{fs}:d{int(delim)}", "iosched", "sched", base, timeout=300))
+                if tier != "quick" or fs == 1:
+                    us.append(U(f"sched1:{integ}:p{phys}:fs{fs}:d{int(delim)}", "iosched", "sched1", base, timeout=300))
+                if tier != "quick" or fs != 1:
+                    us.append(U(f"schedall:{integ}:p{phys}:fs{fs}:d{int(delim)}", "iosched", "sched_all", base, timeout=300))
+            us.append(U(f"seekable:{integ}:p{phys}", "iosched", "seekable", dict(integ=integ, phys=phys, K=K, fs=1), timeout=300))
+    if tier != "quick":
+        for integ in ("generic",):
+            for phys in (1, 2):
+                base = dict(integ=integ, phys=phys, K=K, fs=1, delimited=True, lead_empty=True)
+                base["len"] = io_len(base)
+                us.append(U(f"sched:{integ}:p{phys}:fs1:le", "iosched", "sched", base, timeout=300))
+    return us + [twin(us[0]), twin(us[1]), twin(us[-1])]
+
+
+@prop("C10", functions=IO_FUNCS,
+      bounds={"quick": {"cut": "every byte offset 0..len (symbolic k) of 3-statement delimited streams, frame_size 1 and 2, TRIPLES/QUADS, both integrations"},
+              "thorough": {"cut": "4-statement streams, frame sizes 1,2,3, leading empty frames"}},
+      outside="long streams (frame-at-a-time argument: a frame is decoded only after parse_length_prefixed returned it)",
+      explanation="H-CUT: items yielded before end/exception are a prefix of the original sequence and contain every statement of every frame lying completely inside data[:k]")
+def c10(tier):
+    us = []
+    K = 3 if tier == "quick" else 4
+    for integ in ("generic", "rdflib"):
+        for phys in (1, 2):
+            for fs in ((1, 2) if tier == "quick" else (1, 2, 3)):
+                for le in ([False] if tier == "quick" else [False, True]):
+                    n = stall_len(integ, phys, K, fs, le)
+                    us.append(U(f"cut:{integ}:p{phys}:fs{fs}:le{int(le)}", "iosched", "cut", dict(integ=integ, phys=phys, K=K, fs=fs, lead_empty=le, len=n), timeout=600))
+    return us + [twin(us[0])]
